@@ -1,8 +1,31 @@
 (** C18 — parser_method! behaves like the equivalent chain of Parser method calls;
     the bytes matched for a literal are the bytes rustc gives that literal.
-    Statements only; every proof is [exact <lemma>]. *)
+    Statements only; every proof is [exact <lemma>].
+
+    Reading guide.  (1) literal bytes: decoder = Reference semantics, all well-formed
+    tokens.  (2) the macro forms on the remainder BYTES: which arm runs and which
+    remainder it binds, for all inputs, no hypotheses.  (3) the Parser after the form:
+    for UTF-8 shaped remainders and literals Parser::skip / skip_back never round
+    (matched_bytes_on_boundaries), so the parser is cut exactly at the remainder of (2),
+    and the strip forms are literally the chain of Parser::strip_prefix / strip_suffix
+    calls.  For rfind_skip "latest position" is the dual of find_skip under reversal:
+    the occurrence that ENDS latest (ties: first listed), see C18_rfind_dual.
+
+    NOT YET PROVED (true of the model as far as the correspondence run shows, omitted
+    for time):
+    - find_skip / rfind_skip / trim_* restated as chains of Parser::find_skip /
+      rfind_skip / trim_*_matches calls (the pieces are here: C18_find_* and
+      C18_rfind_* give the selected remainder in terms of occurrences, C18_no_rounding_*
+      give the parser; what is missing is only the definition of those Parser methods
+      in list vocabulary, which is C13/C14's, and the gluing);
+    - a single theorem over the token TREE (string | raw | concat!) — the three cases
+      are separate theorems (C18_literal_bytes_eq_rustc, C18_raw_literal_eq,
+      C18_concat_eq);
+    - stringify!(..) patterns are not modelled (outside the property's statement);
+    - the u32 wrap of start_offset is not modelled (C13's). *)
 From KV Require Import Base.Prelude Model.Utf8 Model.Literal Model.ParserMethod
-  Spec.Search Spec.Literal Spec.ParserMethod Proofs.LiteralProofs Proofs.ParserMethodProofs.
+  Spec.Search Spec.Literal Spec.ParserMethod Spec.ParserChain
+  Proofs.LiteralProofs Proofs.ParserMethodProofs Proofs.ParserChainProofs.
 (* ---------------------------------------------------------------- literal bytes *)
 
 (** literal_bytes_eq_rustc: for every string-literal token that is well formed by the
@@ -106,6 +129,72 @@ Theorem C18_trims_functional : forall e arms bytes o1 o2,
   trims e arms bytes o1 -> trims e arms bytes o2 -> o1 = o2.
 Proof. exact trims_functional. Qed.
 
+(* ---------------------------------------------------------------- the Parser after the form *)
+
+(** strip_eq_chain: for UTF-8 shaped remainder and literals, the branch that runs is the
+    first listed alternative for which Parser::strip_prefix (strip_suffix) returns Ok,
+    and the parser becomes what that call returned ... *)
+Theorem C18_strip_eq_chain : forall s brs p i q,
+  str_shape (p_rem p) -> arms_shaped (arms_of brs) ->
+  (strip_macro s brs p = (Some i, q) <->
+   exists j a, first_listed (fun a => exists q', P_strip (end_of s) p a q') (arms_of brs) j i a /\
+               P_strip (end_of s) p a q).
+Proof. exact strip_macro_some. Qed.
+(** ... and the default branch runs, parser unchanged, exactly when every call fails *)
+Theorem C18_strip_default_chain : forall s brs p q,
+  strip_macro s brs p = (None, q) <->
+  q = p /\ none_listed (fun a => exists q', P_strip (end_of s) p a q') (arms_of brs).
+Proof. exact strip_macro_none. Qed.
+
+(** matched_bytes_on_boundaries: Parser::skip / skip_back never have to round, in any
+    form; the parser is cut exactly at the remainder selected on the bytes
+    ([cut]: remainder [r], start_offset advanced by the bytes in front of [r] for the
+    forward forms and unchanged for the backward ones, direction set) *)
+Theorem C18_no_rounding_strip : forall s brs p,
+  str_shape (p_rem p) -> arms_shaped (arms_of brs) ->
+  strip_macro s brs p =
+  match match_arms s (arms_of brs) (p_rem p) with
+  | Some (i, r) => (Some i, cut s p r)
+  | None => (None, p)
+  end.
+Proof. exact strip_macro_cut. Qed.
+Theorem C18_no_rounding_find : forall brs p,
+  str_shape (p_rem p) -> arms_shaped (arms_of brs) ->
+  find_macro AtStart brs p =
+  match find_loop_start (arms_of brs) (p_rem p) with
+  | Some (i, r) => (Some i, cut AtStart p r)
+  | None => (None, p)
+  end.
+Proof. exact find_macro_start_cut. Qed.
+Theorem C18_no_rounding_rfind : forall brs p,
+  arms_shaped (arms_of brs) ->
+  find_macro AtEnd brs p =
+  match find_loop_end (arms_of brs) (rev (p_rem p)) with
+  | Some (i, r) => (Some i, cut AtEnd p r)
+  | None => (None, p)
+  end.
+Proof. exact find_macro_end_cut. Qed.
+Theorem C18_no_rounding_trim : forall s alts p,
+  str_shape (p_rem p) -> arms_shaped (arms_of [alts]) ->
+  exists out, trims (end_of s) (arms_of [alts]) (p_rem p) out /\
+              trim_macro s alts p = Some (cut s p out).
+Proof. exact trim_macro_cut. Qed.
+
+(** the shape hypothesis holds of every &str and of every decoded well-formed literal *)
+Theorem C18_utf8_text_is_shaped : forall v, Forall scalar v -> str_shape (utf8 v).
+Proof. exact utf8_shape. Qed.
+Theorem C18_literal_is_shaped : forall src v,
+  rustc_string src v -> exists bytes, parse_literal (utf8 src) = Some bytes /\ str_shape bytes.
+Proof. exact literal_shaped. Qed.
+
+Print Assumptions C18_strip_eq_chain.
+Print Assumptions C18_strip_default_chain.
+Print Assumptions C18_no_rounding_strip.
+Print Assumptions C18_no_rounding_find.
+Print Assumptions C18_no_rounding_rfind.
+Print Assumptions C18_no_rounding_trim.
+Print Assumptions C18_utf8_text_is_shaped.
+Print Assumptions C18_literal_is_shaped.
 Print Assumptions C18_pattern.
 Print Assumptions C18_strip_first_listed.
 Print Assumptions C18_strip_default.
